@@ -1,5 +1,6 @@
-(* IoWitnesses: concrete refutation witnesses (known findings D4, D5, D6) for
-   the full statements of C08 / C10, proved by vm_compute on canonical dumps. *)
+(* IoWitnesses: concrete refutation witnesses (known findings D4, D5) for the
+   full statements of C08 / C10, and the readings of the inputs of the repaired
+   finding D6, proved by vm_compute on canonical dumps. *)
 From RM Require Import Model.Text Model.Encoding Model.Reader.
 From RM Require Import Proofs.EncodingFacts Proofs.ReaderFacts Proofs.TransparencyFacts.
 Require Import ZArith List.
@@ -31,22 +32,39 @@ Proof.
   - intros H. apply (f_equal show) in H. vm_compute in H. discriminate.
 Qed.
 
-(* ---------- D6 ---------- *)
+(* ---------- D6 (repaired): the former failing inputs now decode ---------- *)
 
-Lemma odd_tail_refuted :
+(* a UTF-16LE stream that ends right after the low byte of a line feed: the
+   odd trailing byte is a last raw line that decodes to the empty string; no
+   error (before the repair: IoErr UnexpectedEof) *)
+Lemma odd_tail_decodes :
   exists s x, scalar_str s /\
-    one_chunk (bom_le ++ utf16le_enc s ++ [x]) = IoErr UnexpectedEof /\
+    one_chunk (bom_le ++ utf16le_enc s ++ [x]) = IoDone (lines_of_text s ++ [[]]) /\
     one_chunk (bom_le ++ utf16le_enc s) = IoDone (lines_of_text s).
 Proof.
   exists (lit "ab" ++ [10]), 10. split; [scalar_by_compute|split]; vm_compute; reflexivity.
 Qed.
 
-(* an error that no event of the schedule carries (T01e refuted) *)
-Lemma manufactured_error :
-  exists b s, faultless s /\ read_all_lines (mk_reader b s) = IoErr UnexpectedEof.
-Proof.
-  exists [255; 254; 97; 0; 10], []. split; [exact faultless_nil|]. vm_compute. reflexivity.
-Qed.
+(* the input of the former refutation of T01e, at every chunking of its five
+   bytes that is outside the D4 class, with an Interrupted at the extra-byte
+   read: always the one line "a" *)
+Lemma former_d6_input_decodes :
+  show (read_all_lines (mk_reader [255; 254; 97; 0; 10] [])) = show (IoDone [lit "a"]) /\
+  show (read_all_lines (mk_reader [255; 254; 97; 0; 10] [Chunk 3; Chunk 1; Chunk 1])) = show (IoDone [lit "a"]) /\
+  show (read_all_lines (mk_reader [255; 254; 97; 0; 10] [Chunk 4; Chunk 1; Interrupted; Interrupted])) = show (IoDone [lit "a"]) /\
+  show (read_all_lines (mk_reader [255; 254; 97; 0; 10] [Chunk 5; Interrupted])) = show (IoDone [lit "a"]).
+Proof. vm_compute. repeat split. Qed.
+
+(* the extra-byte read of read_line, event by event: after `a\n` in UTF-16LE
+   (FF FE 61 00 0A | 00 ...) the reader is asked once more.  A hard failure
+   there is returned; Interrupted there is retried; EOF there ends the line *)
+Lemma extra_byte_read_events :
+  show (read_all_lines (mk_reader [255; 254; 97; 0; 10; 0; 98; 0] [Chunk 5; Fail TimedOut; Chunk 9])) = [1; 4] /\
+  show (read_all_lines (mk_reader [255; 254; 97; 0; 10; 0; 98; 0] [Chunk 5; Interrupted; Chunk 9])) = show (IoDone [lit "a"; lit "b"]) /\
+  show (read_all_lines (mk_reader [255; 254; 97; 0; 10; 0; 98; 0] [Chunk 5; Interrupted; Interrupted; Chunk 1; Chunk 9])) = show (IoDone [lit "a"; lit "b"]) /\
+  show (read_all_lines (mk_reader [255; 254; 97; 0; 10] [Chunk 5; Interrupted; Fail Other])) = [1; 1] /\
+  show (read_all_lines (mk_reader [255; 254; 97; 0; 10] [Chunk 5])) = show (IoDone [lit "a"]).
+Proof. vm_compute. repeat split. Qed.
 
 (* ---------- D4 ---------- *)
 
